@@ -5,7 +5,7 @@ CloseGuard (R3), clearing resets stored data (R4), releases go through the ownin
 """
 from rulekit import Facts, where, proj_names
 from rulekit.sym import PathEval, show
-from rulekit.query import closure_arg, option_test, field_users, guards_of, ordering_of, ORD_RANK, const_int, recv_fields, peel_bool
+from rulekit.query import drop_blocks, closure_arg, option_test, field_users, guards_of, ordering_of, ORD_RANK, const_int, recv_fields, peel_bool
 
 S = "tracing_subscriber::registry::sharded::"
 REG = S + "Registry"
@@ -30,6 +30,8 @@ def run(ck):
     ck.rule("C05.R3", "slot cleared only by the last CloseGuard of a closing span (after on_close)", floor=7)
     ck.rule("C05.R4", "Clear resets every stored field not overwritten at creation", floor=5)
     ck.rule("C05.R5", "the registry's own references are released through the owning stack", floor=2)
+    ck.rule("C05.R12", "the registry does not hold its per-thread stack borrowed while it calls the collector stack: a close caused by the exit may look at the "
+            "current span (lookup_current, a contextual event or span in on_close) without hitting an outstanding RefCell borrow", floor=1)
     ck.rule("C05.R11", "a span is not reported closed while a layer has yet to be told it was exited: in the stack's exit, whatever can release the entered reference "
             "(and so close the span) comes after the layer's on_exit", floor=1)
     ck.rule("C05.R10", "the registry's releases go through get_default: its re-entrancy flag is given back even when a layer's callback panicked (as C02.R6)", floor=3)
@@ -60,6 +62,7 @@ def run(ck):
             # ... and a reference released through the deprecated drop_span is still a release: on a Layered stack it closes
             C09.layered_drop_span(ck, F, rid="C05.R7")
             exit_before_close(ck, F)
+            stack_borrow_released(ck, F)
             # a layer behind reload::Subscriber gets its on_close (and everything else) only if the wrapper waits for its lock
             from rules import C12
             C12.r3(ck, F, rid="C05.R8")
@@ -502,6 +505,30 @@ def r5(ck, F, rid="C05.R5"):
 
 def short(p):
     return p.replace("tracing_subscriber::registry::sharded::", "").replace("tracing_core::collect::", "")
+
+
+def stack_borrow_released(ck, F, rid="C05.R12"):
+    for fn, outward in (("exit", ("try_close",)), ("enter", ())):
+        b = F.body(COLLECT_REG + fn)
+        if not ck.anchor(rid, "Registry::" + fn, b):
+            continue
+        bm = [(bb, t) for bb, t in b.calls() if t["callee"].get("method") in ("borrow_mut", "try_borrow_mut") and "RefCell" in str(t["callee"].get("path"))]
+        out = [bb for bb, t in b.calls() if t["callee"].get("method") in outward or t["callee"].get("path") == "tracing_core::dispatch::get_default"]
+        key = "Registry::%s releases the span stack before calling out" % fn
+        if not bm or not out:
+            ck.ok(rid, key, fn=b.path, nontrivial=False)
+            continue
+        problems = []
+        for bb, t in bm:
+            drops = drop_blocks(b, t["dest"]["l"])
+            for o in out:
+                if o in b.reachable(bb) and not any(b.dominates(d, o) for d in drops):
+                    problems.append("the RefMut taken at bb%d is still alive when the call at bb%d runs" % (bb, o))
+        if problems:
+            ck.bad(rid, key, where(b.raw["sp"]), "; ".join(problems) + ": when the exit releases the span's last reference, every layer's on_close runs under the borrow, and "
+                   "`ctx.lookup_current()` or a contextual event there panics with `already mutably borrowed` -- the span is never removed", fn=b.path)
+        else:
+            ck.ok(rid, key, fn=b.path)
 
 
 def exit_before_close(ck, F, rid="C05.R11"):
